@@ -79,6 +79,11 @@ var mapModel = porcupine.Model{
 			return true, renderMap(m)
 		case "iter":
 			return !o.err && o.all == st, st
+		case "setall": // MergeDB of a synced state: the content becomes the donor's, atomically
+			if o.err {
+				return false, st
+			}
+			return true, i.v
 		case "mput": // a child trie merged back: its one insert takes effect atomically at the merge, or the merge is rejected
 			if !o.found {
 				return true, st
@@ -119,6 +124,31 @@ func ExecSched(sc sim.Script) *sim.Outcome {
 		w.diskForSave()
 		saveDB = w.pndb
 	}
+	// donors for MergeDB: a separately built trie holding the initial content plus one more entry
+	type donor struct {
+		m    *util.MerklePatriciaTrie
+		cont string
+	}
+	donors := map[[2]int]donor{}
+	for ti := range s.Tasks {
+		for oi, op := range s.Tasks[ti] {
+			if op.K != "mergedb" {
+				continue
+			}
+			dc := map[string]string{}
+			for k, v := range initial {
+				dc[k] = v
+			}
+			dc[op.P] = string(op.V)
+			dm := util.NewMerklePatriciaTrie(util.NewMemoryNodeDB(), util.Sequence(t.ver), nil, statecache.NewEmpty())
+			for _, k := range sim.SortedKeys(dc) {
+				if _, err := dm.Insert(util.Path(k), val([]byte(dc[k]))); err != nil {
+					panic(err)
+				}
+			}
+			donors[[2]int{ti, oi}] = donor{dm, renderMap(dc)}
+		}
+	}
 	nt := len(s.Tasks)
 	hist := make([][]porcupine.Operation, nt)
 	fns := make([]func(), nt)
@@ -127,7 +157,7 @@ func ExecSched(sc sim.Script) *sim.Outcome {
 		ti := ti
 		est += 60 * len(s.Tasks[ti])
 		fns[ti] = func() {
-			for _, op := range s.Tasks[ti] {
+			for oi, op := range s.Tasks[ti] {
 				call := simrt.Stamp()
 				var in hin
 				var out hout
@@ -173,6 +203,11 @@ func ExecSched(sc sim.Script) *sim.Outcome {
 						merr = t.mpt.MergeMPTChanges(c)
 					}
 					out = hout{found: ierr == nil && merr == nil}
+				case "mergedb":
+					d := donors[[2]int{ti, oi}]
+					in = hin{op: "setall", v: d.cont}
+					err := t.mpt.MergeDB(d.m.GetNodeDB(), d.m.GetRoot(), nil)
+					out = hout{err: err != nil}
 				case "validate":
 					record = false
 					t.mpt.Validate()
@@ -240,7 +275,7 @@ func ExecSched(sc sim.Script) *sim.Outcome {
 	}
 	for _, h := range hist {
 		for _, o := range h {
-			if in := o.Input.(hin); in.op == "ins" || in.op == "del" || in.op == "mput" {
+			if in := o.Input.(hin); in.op == "ins" || in.op == "del" || in.op == "mput" || in.op == "setall" {
 				nmut++
 			}
 		}
